@@ -5,6 +5,7 @@ requests (one line, space separated):
   gk    <dec> <n> (<info> <patchhex>)×n <table>…
   round <dec> <ninv> <info>×ninv <nnon> <info>×nnon <nst> (<uri> <A|P:hex>)×nst <table>…
   splice <S|L|1|2|3|4> <maxGid> <datahex> <noffs> <off>×noffs <nrepl> (<gid> <hex>)×nrepl
+  gvar  <maxGid> <gvarhex|none> <n> (<wide 0|1> <decoded payload hex>)×n     → ok <digest of new gvar> | err …
 where
   <dec>   = n | <k>:<Init|Stream|Dict|Max|Excess|Io>   scripted decoder: identity (base ++ stream when a
             base is given), MaxSizeExceeded if longer than maxLen, fault on call k
@@ -16,6 +17,7 @@ responses
   round appends ` | <uri>=A|P:<len>:<fnv>…`
 -/
 import FontVerif.Model.PatchRound
+import FontVerif.Model.GvarKeyed
 namespace FontVerif.Drv.C18
 open FontVerif FontVerif.Ift
 
@@ -155,8 +157,35 @@ def takeRepl : Nat → List String → Option (List (Nat × Bytes) × List Strin
     some ((g, d) :: more, rest')
   | _, _ => none
 
+/-- take `n` (wide, payload) pairs and parse them with `GlyphPatches::read` -/
+def takePayloads : Nat → List String → Option (List (Except RErr GlyphPatches) × List String)
+  | 0, rest => some ([], rest)
+  | n + 1, w :: p :: rest => do
+    let wide ← (if w = "1" then some true else if w = "0" then some false else none)
+    let pb ← parseHex? p
+    let (more, rest') ← takePayloads n rest
+    some (gpRead pb wide :: more, rest')
+  | _, _ => none
+
+def allOk : List (Except RErr GlyphPatches) → Except RErr (List GlyphPatches)
+  | [] => .ok []
+  | .error e :: _ => .error e
+  | .ok g :: rest => match allOk rest with | .error e => .error e | .ok gs => .ok (g :: gs)
+
 def handle (cmd : String) (args : List String) : Option String :=
   match cmd, args with
+  | "gvar", mg :: g :: n :: rest => do
+    let mg ← mg.toNat?
+    let gv ← (if g = "none" then some none else (parseHex? g).map some)
+    let n ← n.toNat?
+    let (ps, tail) ← takePayloads n rest
+    if !tail.isEmpty then none else
+    match allOk ps with
+    | .error e => some s!"err {perrStr (.patchParsingFailed e)}"
+    | .ok gps =>
+      match gvarPatch gv gps mg with
+      | .ok out => some s!"ok {digest out}"
+      | .error e => some s!"err {perrStr e}"
   | "tk", d :: i :: p :: font => do
     let dec ← parseDec d
     let info ← parseInfo i
